@@ -1,1 +1,3 @@
-#[cfg(any(not(verif_select), verif_ga))] #[path = "/verif/harness/ntp_proto/ga_probe_kalman_source.rs"] pub(crate) mod ga;
+#[cfg(any(not(verif_select), verif_ga))]
+#[path = "/verif/harness/ntp_proto/ga_probe_kalman_source.rs"]
+pub(crate) mod ga;
